@@ -268,6 +268,23 @@ def junction_class(lv):
 
 # ------------------------------------------------------------------ real-code driver
 
+def relabel_steps(ser, how):
+    """Other load_step labels for the same rows: the labels name the steps, their order is the row order."""
+    steps = list(ser.index.get_level_values("load_step").unique())
+    if how == "gapped":
+        m = {s_: 3 * q for q, s_ in enumerate(steps)}
+    elif how == "offset":
+        m = {s_: 7 + q for q, s_ in enumerate(steps)}
+    elif how == "unsorted":
+        perm = steps[::-1] if len(steps) % 2 else steps[1:] + steps[:1]
+        m = dict(zip(steps, perm))
+    else:
+        return ser
+    idx = pd.MultiIndex.from_arrays([[m[a] for a in ser.index.get_level_values("load_step")],
+                                     ser.index.get_level_values("node_id")], names=["load_step", "node_id"])
+    return pd.Series(ser.to_numpy(), index=idx, name=ser.name)
+
+
 def cut_out_of_larger_mesh(ser, node_ids):
     """The batch as a selection out of a larger mesh series (mesh[mask]): same rows and values, but the
     MultiIndex keeps the unused node ids of the whole mesh in its levels."""
@@ -436,6 +453,7 @@ def generate(prop, rng, tier):
             tr["subset_of_mesh"] = rng.random() < 0.4
             tr["law_order"] = rng.choice(["samples", "samples", "sorted", "reversed"])
             tr["series_name"] = rng.choice([None, None, "load", "F"])
+            tr["step_labels"] = rng.choice(["range", "range", "gapped", "offset", "unsorted"])
         return tr
     return generate_c05(rng, tier)
 
@@ -499,6 +517,7 @@ def generate_c05(rng, tier):
         tr["subset_of_mesh"] = rng.random() < 0.4
         tr["law_order"] = rng.choice(["samples", "samples", "sorted", "reversed"])
         tr["series_name"] = rng.choice([None, None, "load", "F"])
+        tr["step_labels"] = rng.choice(["range", "range", "gapped", "offset", "unsorted"])
         # K2 wants all loads off the class edges (see DESIGN 4.5 "known trap")
         f = 1.0137
         loads = [x * step for x in lv]
@@ -605,6 +624,9 @@ def exec_c04(trace, out, log):
             out.count("probe:node_major_rows")
         if trace.get("series_name"):
             ser = ser.rename(trace["series_name"])           # users' series usually carry a name
+        if trace.get("step_labels") in ("gapped", "offset", "unsorted"):
+            ser = relabel_steps(ser, trace["step_labels"])
+            out.count("probe:load_step_labels_" + trace["step_labels"])
         law = get_law(trace["law"], int(trace["mat"]), law_nodes([(i, big * 1.0731 * r) for i, r in nodes], trace.get("law_order")), int(trace["bins"]))
         if trace.get("law_order") in ("sorted", "reversed"):
             out.count("probe:law_node_order_" + trace["law_order"])
@@ -888,6 +910,9 @@ def exec_c05(trace, out, log):
         out.count("probe:node_major_rows")
     if trace.get("series_name"):
         batch = batch.rename(trace["series_name"])
+    if trace.get("step_labels") in ("gapped", "offset", "unsorted"):
+        batch = relabel_steps(batch, trace["step_labels"])
+        out.count("probe:load_step_labels_" + trace["step_labels"])
     if shared:
         mx = max(r for _, r in nodes) * big * mf
         law_b = get_law(kind, mat, mx, bins)
